@@ -151,7 +151,8 @@ def run(index: RepoIndex, rep) -> None:
                   f'{sc.name} inherits the triple equality')
     ti = index.func(GO, 'GridObject.type_index')
     b = ti.body()
-    rep.check(value_text(index, ti) == 'grid_object_registry.index(cls)', 'C16.R1',
+    rep.check(value_text(index, ti) in ('grid_object_registry.index(cls)',
+                                        'grid_object_registry.data.index(cls)'), 'C16.R1',
               GO, 'GridObject.type_index', ti.node.lineno, src(b[-1]),
               'type_index is not the position of the class in the registry (stable, unique)',
               'type index from registry')
@@ -199,6 +200,43 @@ def run(index: RepoIndex, rep) -> None:
                         for k_ in tv.keys):
                     tables[tn] = {k_.value: v_ for k_, v_ in zip(tv.keys, tv.values)}
 
+            # helpers that look a name up in such a table: `for k, v in T.items(): if name ==
+            # k: return v` followed by a raise, `return T[name]`, `try: return T[name] except
+            # KeyError: raise ..`
+            lookups = {}
+            for hn, hf in f.module.functions.items():
+                if len(hf.node.args.args) != 1:
+                    continue
+                hp = hf.node.args.args[0].arg
+                body = [s_ for s_ in hf.node.body
+                        if not (isinstance(s_, ast.Expr) and isinstance(s_.value, ast.Constant))]
+                tname = None
+                if len(body) == 2 and isinstance(body[0], ast.For) and \
+                        isinstance(body[1], ast.Raise) and not body[0].orelse and \
+                        isinstance(body[0].iter, ast.Call) and \
+                        isinstance(body[0].iter.func, ast.Attribute) and \
+                        body[0].iter.func.attr == 'items' and \
+                        isinstance(body[0].iter.func.value, ast.Name) and \
+                        isinstance(body[0].target, ast.Tuple) and len(body[0].target.elts) == 2 \
+                        and len(body[0].body) == 1 and isinstance(body[0].body[0], ast.If) and \
+                        not body[0].body[0].orelse and len(body[0].body[0].body) == 1 and \
+                        isinstance(body[0].body[0].body[0], ast.Return):
+                    kv, vv = (src(x) for x in body[0].target.elts)
+                    t_ = body[0].body[0].test
+                    if isinstance(t_, ast.Compare) and len(t_.ops) == 1 and \
+                            isinstance(t_.ops[0], ast.Eq) and \
+                            {src(t_.left), src(t_.comparators[0])} == {hp, kv} and \
+                            src(body[0].body[0].body[0].value) == vv:
+                        tname = body[0].iter.func.value.id
+                else:
+                    from ..inline import pure_body_expr
+                    he = pure_body_expr(hf.node)
+                    if isinstance(he, ast.Subscript) and isinstance(he.value, ast.Name) and \
+                            src(he.slice) == hp:
+                        tname = he.value.id
+                if tname in tables:
+                    lookups[hn] = tname
+
             def raises_(fm, nm=nm):
                 if fm[0] != 'raises':
                     return None
@@ -218,6 +256,15 @@ def run(index: RepoIndex, rep) -> None:
                             src(n_.slice) == np_ and nm in tables[n_.value.id]:
                         import copy as _cp
                         return _cp.deepcopy(tables[n_.value.id][nm])
+                    return n_
+
+                def visit_Call(self, n_):
+                    self.generic_visit(n_)
+                    if isinstance(n_.func, ast.Name) and n_.func.id in lookups and \
+                            [src(a_) for a_ in n_.args] == [np_] and not n_.keywords and \
+                            nm in tables[lookups[n_.func.id]]:
+                        import copy as _cp
+                        return _cp.deepcopy(tables[lookups[n_.func.id]][nm])
                     return n_
             outcome = None
             for e in w.events:
